@@ -62,6 +62,46 @@ def run(ctx):
                           "model and implementation disagree on %s" % dict(
                               estimator=rec.get('estimator'), L=rec['L'].tolist(), pairs=rec['pts'].tolist()))
   # the property oracle itself, on the implementation (defence in depth; also the search for a replay)
+  # points named by indicators into a preprocessor that holds them in a narrow / unsigned integer type
+  import warnings
+  from metric_learn import Covariance
+  rng = ctx.rng
+  for i in range(120 if thorough else 30):
+    d = int(rng.integers(2, 6))
+    k = int(rng.integers(1, d + 1))
+    L = rng.integers(-8, 9, size=(k, d)) / 4.0
+    bt = ['uint8', 'int16', 'uint16', 'int8'][i % 4]
+    hi = 120 if bt == 'int8' else 250
+    bank = rng.integers(0, hi, size=(8, d))
+    with warnings.catch_warnings():
+      warnings.simplefilter('ignore')
+      eb = Covariance(preprocessor=bank.astype(bt)).fit(np.arange(6))
+      eb.components_ = L
+      a, b, c = [int(v) for v in rng.choice(8, size=3, replace=False)]
+      dd = lambda p, q: float(eb.pair_distance(np.array([[p, q]]))[0])
+      dab, dba, dbc, dac, daa = dd(a, b), dd(b, a), dd(b, c), dd(a, c), dd(a, a)
+      sab = float(eb.pair_score(np.array([[a, b]]))[0])
+    ctx.count('falsifier_integer_bank', 1)
+    why = None
+    if not all(np.isfinite(v) and v >= 0 for v in (dab, dba, dbc, dac, daa)):
+      why = 'not finite / negative'
+    elif daa != 0.0:
+      why = 'd(x,x) != 0'
+    elif dab != dba:
+      why = 'd(x,y) != d(y,x)'
+    elif dac > dab + dbc + 1e-9 * (dab + dbc):
+      why = 'triangle inequality'
+    elif sab != -dab:
+      why = 'pair_score != -pair_distance'
+    if why:
+      ctx.fail_input('metric_axioms', 'metric axioms on pair_distance with indicators into a %s preprocessor: %s' % (bt, why),
+                     dict(L=L.tolist(), bank=bank.tolist(), dtype=bt, indicators=[a, b, c]), observed=[dab, dba, dbc, dac, daa])
+      break
+  srecs = mc.scaled_L_cases(ctx.rng, 160 if thorough else 32)
+  ctx.count('falsifier_scaled_L_records', len(srecs))
+  for rec in srecs:
+    if falsify_rec(ctx, rec, 'metric_axioms'):
+      break
   frecs = mc.float32_cases(ctx.rng, 200 if thorough else 40)
   ctx.count('falsifier_float32_records', len(frecs))
   for rec in frecs:
